@@ -12,6 +12,7 @@ import (
 	"sort"
 	"strconv"
 	"strings"
+	"sync"
 	"time"
 
 	goframe "github.com/kishyassin/goframe"
@@ -153,6 +154,10 @@ func resampleFn(id int) func([]any) any {
 				return nil
 			}
 			return x[len(x)-1]
+		case 4:
+			// identity: the cell of the result IS the slice the library passed in (a library that reuses that
+			// slice for the next bucket changes this cell); it is recorded through its %v text
+			return x
 		default:
 			s := 0
 			for _, v := range x {
@@ -339,6 +344,18 @@ func (r *Runner) Exec(o Op) (out Out) {
 		devnull, _ := os.OpenFile(os.DevNull, os.O_WRONLY, 0)
 		saved := os.Stdout
 		os.Stdout = devnull
+		rowWise := o.Axis != nil && len(*o.Axis) > 0 && (*o.Axis)[0] != 0
+		expect := callsExpected(df, rowWise)
+		var callMu sync.Mutex
+		seen := []string{}
+		base := applyFn(o.Fn)
+		counted := func(x []any) any {
+			callMu.Lock()
+			seen = append(seen, cellsKey(x))
+			callMu.Unlock()
+			return base(x)
+		}
+		applyFn := func(int) dataframe.FuncType { return counted }
 		func() {
 			defer func() { os.Stdout = saved; devnull.Close() }()
 			if o.Axis == nil {
@@ -364,8 +381,14 @@ func (r *Runner) Exec(o Op) (out Out) {
 		if !ok {
 			return Out{Status: "err", Msg: "Apply returned a non-frame"}
 		}
+		// the function must have been called exactly once per row (per column), with that row's (column's) cells
+		sort.Strings(seen)
+		if strings.Join(seen, "\x00") != strings.Join(expect, "\x00") {
+			r.pool = append(r.pool, rdf)
+			return Out{Status: "panic", Msg: fmt.Sprintf("Apply called the function %d times, expected %d calls (once per row or column with its cells)", len(seen), len(expect))}
+		}
 		return derive(rdf, nil)
-	case "string", "select", "colat", "series", "plot", "groupbyother":
+	case "string", "select", "colat", "series", "plot", "groupbyother", "iofail":
 		return r.execView(o, df)
 	case "describe":
 		return derive(df.Describe())
@@ -499,6 +522,10 @@ func (r *Runner) Exec(o Op) (out Out) {
 		row := map[string]any{}
 		for _, kv := range o.Row {
 			row[string(kv.K)] = kv.V.ToAny()
+		}
+		if o.Alt && o.G >= 0 && o.G < len(r.pool) {
+			// AppendRow(result, row) appends to its argument; the receiver may be any frame
+			return edit(r.pool[o.G].AppendRow(df, row))
 		}
 		return edit(df.AppendRow(df, row))
 	case "droprow":
@@ -648,6 +675,38 @@ func (r *Runner) execGuard(o Op) (Out, bool) {
 	case <-time.After(execTimeout):
 		return Out{Status: "panic", Msg: "the call did not return within " + execTimeout.String()}, true
 	}
+}
+
+func cellsKey(x []any) string {
+	parts := make([]string, len(x))
+	for i, v := range x {
+		c := FromAny(v)
+		parts[i] = c.T + ":" + c.I + c.F + string(c.S) + fmt.Sprint(c.B, c.Tm)
+	}
+	return strings.Join(parts, "|")
+}
+
+// callsExpected: the argument lists a sequential Apply passes to the function, sorted
+func callsExpected(df *dataframe.DataFrame, rowWise bool) []string {
+	names := df.ColumnNames()
+	out := []string{}
+	if rowWise {
+		for i := 0; i < df.Nrows(); i++ {
+			row := make([]any, len(names))
+			for j, n := range names {
+				if i < len(df.Columns[n].Data) {
+					row[j] = df.Columns[n].Data[i]
+				}
+			}
+			out = append(out, cellsKey(row))
+		}
+	} else {
+		for _, n := range names {
+			out = append(out, cellsKey(df.Columns[n].Data))
+		}
+	}
+	sort.Strings(out)
+	return out
 }
 
 // RunHist executes ops on fresh frames and records every observation.
